@@ -192,6 +192,15 @@ def opUnpack (j : Json) : Json :=
               if d.isUnion then jlist (fun s => offJson (.field 0 s)) szs
               else jlist offJson (offsetsLoop ps d.packed d.fields szs 0)
             | none => Json.null
+        let offOf : Json :=
+          if d.kind == .typedef then Json.null
+          else match instSizes ps data pos d with
+            | some szs =>
+              jlist (fun (f : Field) =>
+                Json.arr #[Json.str f.name,
+                  if d.isUnion then jnat 0 else jopt jnat (offsetOfLoop ps d.packed f.name d.fields szs 0)])
+                (d.fields.filter (fun f => f.name != ""))
+            | none => Json.null
         let packed : Json := match packDef ps d v with
           | some b => Json.str (hexOf b)
           | none => Json.null
@@ -199,7 +208,7 @@ def opUnpack (j : Json) : Json :=
           | some rv => valJson rv
           | none => Json.str "none"
         Json.mkObj [("ok", Json.bool true), ("value", valJson v), ("len", jnat n), ("mask", Json.str (hexOf m)),
-                    ("offsets", offs), ("packed", packed), ("refvalue", refv),
+                    ("offsets", offs), ("offset_of", offOf), ("packed", packed), ("refvalue", refv),
                     ("canon", Json.str (hexOf (canon m (data.drop pos)))),
                     ("canonical", Json.bool cflag), ("wf", Json.bool (d.wf ps))]
   | .ok (_, _, none), _, _, _ => jerr "def"
